@@ -309,6 +309,7 @@ def rules(fx, rep):
     c06.rule_hash_wiring(fx, rep)
     # results of arithmetic: the exceptional-case skeleton of the group operations (shared with C01)
     c01.rule_projective_ops(fx, rep)
+    c01.rule_general_formulas(fx, rep)
     c01.rule_sub_defaults(fx, rep)
 
 
